@@ -31,10 +31,11 @@ if [ -n "$demo" ]; then
 else
   echo "demo: (no test-file demo found; check by hand)"
 fi
-cd /verif
+SNAP=${VERIF_SNAP:-/root/verif-snap}
+cd $SNAP
 for p in "$@"; do
   ev=$(mktemp -d)
-  out=$(VERIF_REPO="$scratch/with" VERIF_EVIDENCE_DIR="$ev" VERIF_REPLAY_DIR="$ev" VERIF_BUDGET_S=${VERIF_BUDGET_S:-200} ./bin/verif check "$p" ${TIER:+--tier $TIER} 2>&1); rc=$?
+  out=$(VERIF_DIR=$SNAP VERIF_REPO="$scratch/with" VERIF_EVIDENCE_DIR="$ev" VERIF_REPLAY_DIR="$ev" VERIF_BUDGET_S=${VERIF_BUDGET_S:-200} ./bin/verif check "$p" ${TIER:+--tier $TIER} 2>&1); rc=$?
   echo "check $p: exit=$rc $(echo "$out" | grep -c '^VIOLATION') violation line(s)"
   echo "$out" | grep -A2 '^VIOLATION' | cut -c1-300 | head -${MUTEST_LINES:-6}
   rm -rf "$ev"
